@@ -430,6 +430,18 @@ pub fn run_type<T: Model>(out: &mut Out, r: &mut Rng, n: usize, which: &str) {
             let alt = match &v { Value::Vector(els) => Some(Value::list(els.to_vec())), _ => v.to_vec().filter(|xs| !xs.is_empty() || true).map(|xs| Value::Vector(xs.into())) };
             if let Some(a) = alt { de_case::<T>(out, &a, true); }
             for _ in 0..2 { let m = mutate_value(&v, r); de_case::<T>(out, &m, true); }
+            // improper lists in sequence and tuple positions must be rejected
+            let elems: Option<Vec<Value>> = match &v { Value::Vector(els) => Some(els.to_vec()), Value::Cons(_) => v.to_vec(), _ => None };
+            if let Some(els) = elems {
+                if !els.is_empty() {
+                    let tail = match r.below(4) { 0 => Value::from(3), 1 => Value::symbol("x"), 2 => Value::Nil, _ => Value::string("t") };
+                    let imp = Value::append(els, tail);
+                    out.oracle_checks += 1;
+                    if let Some(_) = de_case::<T>(out, &imp, true) {
+                        out.fail("improper-accepted", format!("an improper list is accepted where a sequence or tuple is expected ({})", tyname), format!("de {} ; {}", T::ty(), enc_case_value(&imp)), json!({}));
+                    }
+                }
+            }
         }
         if which == "C18" {
             for _ in 0..4 { let m = mutate_value(&v, r); de_case::<T>(out, &m, true); }
